@@ -520,6 +520,8 @@ static struct Register {
 #if SEL(1, 0)
 			addUnit<ListTarget<PolFunction<ST> > >("C01/list/single/function", 0, c, 8, 40, 0, 0);
 			addUnit<ListTarget<PolFunction<VThreading> > >("C01/list/vmutex/function", 0, c, 7, 40, 0, 0);
+			{ Cfg c5 = c; c5.K = 5; addUnit<ListTarget<PolFunction<ST> > >("C01/list/single/function-K5", 1, c5, 8, 60, 0, 0); }
+			{ Cfg c6 = c; c6.K = 6; addUnit<ListTarget<PolFunction<MT> > >("C01/list/stdmutex/function-K6", 1, c6, 8, 60, 0, 0); }
 #endif
 #if SEL(1, 1)
 			addUnit<ListTarget<PolFunction<SpinT> > >("C01/list/spinlock/function", 0, c, 6, 40, 0, 0);
@@ -528,10 +530,12 @@ static struct Register {
 #if SEL(1, 2)
 			addUnit<ListTarget<PolComparable<ST> > >("C01/list/single/comparable", 0, cc, 7, 40, 0, 0);
 			addUnit<ListTarget<PolComparable<VThreading> > >("C01/list/vmutex/comparable", 0, cc, 6, 40, 0, 0);
+			{ Cfg c5 = cc; c5.K = 5; addUnit<ListTarget<PolComparable<ST> > >("C01/list/single/comparable-K5", 1, c5, 7, 60, 0, 0); }
 #endif
 #if SEL(1, 3)
 			addUnit<DispTarget<PolFunction<ST> > >("C01/dispatcher/single/function", 0, cd, 6, 40, 0, 0);
 			addUnit<DispTarget<PolComparable<VThreading> > >("C01/dispatcher/vmutex/comparable", 0, cdc, 5, 40, 0, 0);
+			{ Cfg c4 = cd; c4.K = 4; addUnit<DispTarget<PolFunction<MT> > >("C01/dispatcher/stdmutex/function-K4", 1, c4, 6, 60, 0, 0); }
 #endif
 		}
 		// ---- C02: re-entrant programs
